@@ -76,6 +76,11 @@ CHECKS = {
    text="Exhaustive within the bound: every sequence of <=2 tokens over 50 token classes and <=3 tokens over 30 classes (quick; <=3 over 50 and <=4 over 30 thorough: about 1M sequences) x 5 framings, plus seeded random soup of up to 30 tokens (every successor of every visited state), 40 (quick) / 200 (thorough) byte-level mutations of each of 240 / 2400 generated programs, and 16 bracketing constructs nested to depth 256. Oracle: Parse and Render return within 3 s and do not panic.",
    note="Verdict by enumeration and observation of the real parser; the TLA+ side contributes the input space (and, where ParserCtl.tla is present, termination of the control skeleton). Inputs outside the enumerated token classes are only reached by mutations.",
    design="§6 C03"),
+ "C04": dict(
+   technique="TLC enumeration of the kind matrices (GenKinds.tla) replayed into real plush.Render with a Go value per kind; TLC model checking of the transcribed index/update/append/len decision procedures (IndexGuards.tla, invariant NoPanic: guards imply reflect preconditions) with every cell replayed and the predicted ok/error class compared",
+   text="Exhaustive: about 105k cells = 119 template forms over free variables instantiated with every tuple of 41 value kinds (operators, index read, index assignment, members and methods incl. nil receivers, iteration, calls with 0-3 arguments / blocks / wrong arity, 40 built-in helper forms, sinks). Oracle: Render returns output or an error, never a panic or hang. IndexGuards.tla: 1278 (container, index, value) cells; TLC proves NoPanic for the repaired guards and refutes it for the checks of the pinned commit; the real code's ok/error class equals the model's prediction on every cell (no drift).",
+   note="One representative value per kind; random programs over the kind pool are not generated yet. Panics raised inside user-supplied methods are not attributed to plush.",
+   design="§6 C04"),
 }
 
 NOT_YET = "check not built yet in this session (work in progress, see DESIGN.md §8)"
